@@ -223,7 +223,7 @@ func resolveClientAnchors(c *Ctx, short string) *clientAnchors {
 			continue
 		}
 		allInstrs(f, func(in ssa.Instruction) {
-			if cl, ok := in.(*ssa.Call); ok && isFuncCall(cl.Common(), "sync/atomic", "CompareAndSwapUint32") && a.isClientFieldAddr(cl.Call.Args[0], "closed") {
+			if cl, ok := in.(*ssa.Call); ok && isClosedCAS(a, cl.Common()) {
 				a.closeFn = f
 			}
 		})
@@ -381,4 +381,31 @@ func (a *clientAnchors) lockFlow(fn *ssa.Function) *lockInfo {
 		li.exitMay[b] = s.may
 	}
 	return li
+}
+
+// isClosedCAS: the once-only guard of Close — atomic.CompareAndSwapUint32(&c.closed, 0, 1), or the method form of the
+// typed atomics, c.closed.CompareAndSwap(false, true) / (0, 1)
+func isClosedCAS(a *clientAnchors, cc *ssa.CallCommon) bool {
+	sf := cc.StaticCallee()
+	if sf == nil || pkgPathOf(sf) != "sync/atomic" || len(cc.Args) != 3 || !a.isClientFieldAddr(cc.Args[0], "closed") {
+		return false
+	}
+	if sf.Name() != "CompareAndSwapUint32" && sf.Name() != "CompareAndSwapInt32" && sf.Name() != "CompareAndSwap" {
+		return false
+	}
+	isZero := func(v ssa.Value) bool {
+		if b, ok := boolConst(v); ok {
+			return !b
+		}
+		k, ok := intConst(v)
+		return ok && k == 0
+	}
+	isOne := func(v ssa.Value) bool {
+		if b, ok := boolConst(v); ok {
+			return b
+		}
+		k, ok := intConst(v)
+		return ok && k == 1
+	}
+	return isZero(cc.Args[1]) && isOne(cc.Args[2])
 }
